@@ -407,6 +407,11 @@ func lengthMenu(thorough bool) []int {
 			set[1<<k+d] = true
 		}
 	}
+	// counts around the decoder's nesting bound (10000): a bound that is checked against anything but the current
+	// depth - the number of lists and compounds seen so far, say - refuses wide, shallow documents of this size
+	for _, l := range []int{9999, 10000, 10001, 10002, 20001} {
+		set[l] = true
+	}
 	var out []int
 	for l := range set {
 		out = append(out, l)
